@@ -155,3 +155,16 @@ Definition meta_tab (g : grammar) : PositiveMap.t attr :=
 
 Definition meta_balanced_b (g : grammar) : bool := consistent_b g (meta_tab g).
 Definition meta_risky_kinds (g : grammar) : list N := risky_kinds g (meta_tab g).
+
+(** the graph with every [Conditional] enabled / disabled: what the translator dumps under an indentation
+    configuration with all flags set (a [Conditional] is enabled iff every flag it names is set), resp. - for a
+    grammar all of whose Conditionals name a flag - with no flag set.  Only [Conditional::is_enabled] reads the
+    configuration. *)
+Definition set_cond (b : bool) (i : ninfo) : ninfo :=
+  match n_node i with
+  | GCond k _ => mkInfo (GCond k b) (n_opt i) (n_simple i) (n_ckey i)
+  | _ => i
+  end.
+Definition set_conds (b : bool) (g : grammar) : grammar :=
+  mkGrammar (PositiveMap.map (set_cond b) (g_nodes g)) (g_eq g) (g_brackets g) (g_root g)
+            (k_ws g) (k_nl g) (k_bracketed g) (k_unparsable g) (k_indent g) (k_dedent g) (k_implicit g) (g_noncode g).
